@@ -161,7 +161,19 @@ pub fn canon_event_lines(tr: &[Event]) -> Vec<String> {
     out
 }
 
+/// Did the program under test start threads of its own (preload form numbers threads)?
+pub fn own_threads(tr: &[Event]) -> bool {
+    tr.iter().any(|e| e.tid != 0)
+}
+
 pub fn trace_digest(tr: &[Event]) -> u64 {
+    if own_threads(tr) {
+        // threads of the program itself run unscheduled: the order of their calls is not a
+        // function of the seed; compare the multiset of what was done
+        let mut v: Vec<String> = tr.iter().map(|e| format!("{} {} {} {}", e.call.name(), if e.path.starts_with('<') { e.path.as_str() } else { "path" }, e.ret.signum(), e.errno)).collect();
+        v.sort();
+        return fnv(v.join("\n").as_bytes());
+    }
     let mut s = String::new();
     for l in canon_event_lines(tr) {
         s.push_str(&l);
